@@ -60,6 +60,9 @@ type Cfg struct {
 	WriteBuf   int     `json:"write_buf,omitempty"`
 	Variant    int     `json:"variant,omitempty"`
 	NewMaxSize int     `json:"new_max_size,omitempty"`
+	Variant2   int     `json:"variant2,omitempty"`
+	NewMaxSize2 int    `json:"new_max_size2,omitempty"`
+	Prealloc2  bool    `json:"prealloc2,omitempty"`
 	TxidBase   uint64  `json:"txid_base,omitempty"`
 	NoYieldIO  bool    `json:"no_yield_io,omitempty"`
 }
@@ -231,7 +234,7 @@ var flushRng *simsched.Rand
 func RunSim(t *testing.T, c *Case, keepTrace bool, body Body) (res *Result) {
 	res = &Result{Probes: map[string]int{}, Evals: 1}
 	cfg := c.Cfg
-	scfg := simsched.Config{Stick: 0.5, BgWeight: 1, MaxSteps: 400000}
+	scfg := simsched.Config{Stick: 0.5, BgWeight: 1, MaxSteps: 100000}
 	if cfg != nil {
 		scfg.Stick, scfg.BgWeight = cfg.Stick, cfg.BgWeight
 	}
